@@ -21,6 +21,35 @@ def blank(task):
             "functions": {}, "patched": [], "extra": {"cells": 0, "law_identities": 0}}
 
 
+def sample_points(sc, cvars, n=4):
+    """a few distinct rational models of the cell (for refuting false identities by exact evaluation)"""
+    pts = []
+    sc.push()
+    try:
+        for _ in range(n):
+            if core.guarded_check(sc, seconds=10) != z3.sat:
+                break
+            pm = sc.model()
+            pt = {}
+            for n_, v_ in cvars.items():
+                val = pm.eval(v_, model_completion=True)
+                if not z3.is_rational_value(val):
+                    pt = None
+                    break
+                pt[n_] = val.as_fraction()
+            if pt is None:
+                break
+            pts.append((pm, pt))
+            # ask for a different point next time
+            diffs = [v_ != pm.eval(v_, model_completion=True) for v_ in cvars.values()]
+            if not diffs:
+                break
+            sc.add(z3.And(*diffs) if len(pts) % 2 else z3.Or(*diffs))
+    finally:
+        sc.pop()
+    return pts
+
+
 class Excluded(Exception):
     """closed form declines this cell (documented fallback outside the stated law)"""
 
@@ -28,6 +57,7 @@ class Excluded(Exception):
 def run_law(task, closed_form, input_constraints, max_cells=400, outcome_key=None, cell_hook=None, checker=None):
     """closed_form(ctx_like_vars, outcome_key) -> term ; input_constraints(vars) -> [z3 conds]"""
     t0 = time.time()
+    deadline = t0 + task.get("budget_s", 600)
     res = blank(task)
     hname, params, canary = task["harness"], task["params"], task.get("canary")
     okey = outcome_key or (lambda o: json.dumps(o, sort_keys=True))
@@ -37,7 +67,7 @@ def run_law(task, closed_form, input_constraints, max_cells=400, outcome_key=Non
     def law_pre(ctx):
         ctx.law_mode = True
 
-    for ctx, ex, outcome, status in engine.explore_raw(hname, params, pre=law_pre, canary=None):
+    for ctx, ex, outcome, status in engine.explore_raw(hname, params, pre=law_pre, canary=None, deadline=deadline, max_paths=task.get("max_paths", 20000)):
         res["paths"] += 1
         res["queries"] += ex.queries
         res["solver_s"] += ex.solver_time
@@ -98,7 +128,7 @@ def run_law(task, closed_form, input_constraints, max_cells=400, outcome_key=Non
                 ctx.ex.assume(c)
         nz = Normaliser()
         cvars = {}
-        for ctx, ex, outcome, status in engine.explore_raw(hname, params, pre=pre, canary=canary):
+        for ctx, ex, outcome, status in engine.explore_raw(hname, params, pre=pre, canary=canary, deadline=deadline, max_paths=task.get("max_paths", 20000)):
             res["paths"] += 1
             res["queries"] += ex.queries
             res["solver_s"] += ex.solver_time
@@ -157,30 +187,24 @@ def run_law(task, closed_form, input_constraints, max_cells=400, outcome_key=Non
                 res["extra"]["identities_trivial_after_normalisation"] = res["extra"].get("identities_trivial_after_normalisation", 0) + 1
                 continue
             # a non-zero polynomial: first try the cell's own model as witness (exact evaluation), then ask z3
-            if point is None and sc.check() == z3.sat:
-                pm = sc.model()
-                point = {}
-                for n_, v_ in cvars.items():
-                    val = pm.eval(v_, model_completion=True)
-                    if z3.is_rational_value(val):
-                        point[n_] = val.as_fraction()
-                    else:
-                        point = None
-                        break
+            if point is None:
+                point = sample_points(sc, cvars)
             r = None
-            if point is not None and not nz.atoms:
-                try:
-                    dens_ok = all(nz.F[kk].evaluate(point) != 0 for kk in (set(nz.nd(lift(got))[1]) | set(nz.nd(lift(exp))[1])))
-                    if dens_ok and poly.evaluate(point) != 0:
-                        r = z3.sat
-                        mdl = pm
-                except KeyError:
-                    pass
+            if point and not nz.atoms:
+                for pm, pt in point:
+                    try:
+                        dens_ok = all(nz.F[kk].evaluate(pt) != 0 for kk in (set(nz.nd(lift(got))[1]) | set(nz.nd(lift(exp))[1])))
+                        if dens_ok and poly.evaluate(pt) != 0:
+                            r = z3.sat
+                            mdl = pm
+                            break
+                    except KeyError:
+                        break
             if r is None:
                 q = nz.to_z3(poly) != 0
                 tq = time.time()
                 sc.set("timeout", 15000)
-                r = sc.check(q, *nz.denominators_nonzero(lift(got), lift(exp)))
+                r = core.guarded_check(sc, q, *nz.denominators_nonzero(lift(got), lift(exp)), seconds=20)
                 res["solver_s"] += time.time() - tq
                 res["queries"] += 1
                 if r == z3.sat:
